@@ -38,6 +38,58 @@ while n < N or (G.all_rule_keys() - G.used and n < N + 300):
         ok, w = False, {"source": src[:1200], "error": repr(ex)[:300]}
     c_dict.case(src, ok, sample=src[:80], witness=w, nontrivial=len(toks) > 0)
 
+# ---------------------------------------------------------------- every documented list path
+c_paths = Component("every-list-path",
+                    "for each block path documented as a data-transform / execute list (http-get.client.metadata, http-get.server.output, "
+                    "http-post.client.id, http-post.client.output, http-post.server.output, http-stager.server.output, "
+                    "process-inject.execute, process-inject.transform-x86) and with a variant: random lists with argument-taking steps "
+                    "at exactly that path; as_dict == independent reading; 10 per path quick / 300 thorough")
+
+
+def rand_list_text():
+    out = []
+    for _ in range(rng.randrange(1, 5)):
+        k = rng.choice(["base64", "mask", "netbios", "prepend", "append", "prepend"])
+        out.append(f'{k} {profilegen.literal(rng)[0]};' if k in ("prepend", "append") else f"{k};")
+    t = rng.choice(["print", "header", "parameter"])
+    out.append(f'{t} {profilegen.literal(rng, 0)[0]};' if t != "print" else "print;")
+    return " ".join(out)
+
+
+PATHS = {
+    "http-get.client.metadata": lambda b: "http-get { client { metadata { %s } } }" % b,
+    "http-get.server.output": lambda b: "http-get { server { output { %s } } }" % b,
+    "http-post.client.id": lambda b: "http-post { client { id { %s } } }" % b,
+    "http-post.client.output": lambda b: "http-post { client { output { %s } } }" % b,
+    "http-post.server.output": lambda b: "http-post { server { output { %s } } }" % b,
+    "http-stager.server.output": lambda b: "http-stager { server { output { %s } } }" % b,
+    'http-get."v1".client.metadata': lambda b: 'http-get "v1" { client { metadata { %s } } }' % b,
+    'http-post."default".client.output': lambda b: 'http-post "default" { client { output { %s } } }' % b,
+}
+for path, mk in PATHS.items():
+    for _ in range(10 if TIER == "quick" else 300):
+        src = mk(rand_list_text())
+        try:
+            got = C2Profile.from_text(src).as_dict()
+            want = profilegen.dict_of_tokens(profilegen.tokenize(src))
+            ok = got == want
+            w = {"source": src, "got": repr(got)[:400], "want": repr(want)[:400]}
+        except Exception as ex:   # noqa
+            ok, w = False, {"source": src, "error": repr(ex)[:300]}
+        c_paths.case((path, src), ok, sample=src[:80], witness=w)
+for _ in range(10 if TIER == "quick" else 300):
+    ex = rng.sample(['CreateThread;', 'SetThreadContext;', 'NtQueueApcThread-s;', 'RtlCreateUserThread;', 'CreateThread "ntdll!RtlUserThreadStart";',
+                     'CreateRemoteThread "kernel32.dll!LoadLibraryA+0x10";'], rng.randrange(1, 5))
+    src = "process-inject { execute { %s } transform-x86 { prepend %s; append %s; } }" % (" ".join(ex), profilegen.literal(rng)[0], profilegen.literal(rng)[0])
+    try:
+        got = C2Profile.from_text(src).as_dict()
+        want = profilegen.dict_of_tokens(profilegen.tokenize(src))
+        ok = got == want
+        w = {"source": src, "got": repr(got)[:400], "want": repr(want)[:400]}
+    except Exception as ex_:   # noqa
+        ok, w = False, {"source": src, "error": repr(ex_)[:300]}
+    c_paths.case(src, ok, sample=src[:80], witness=w)
+
 # ---------------------------------------------------------------- builder API vs text
 c_build = Component("builder-equals-parsed-text",
                     "random profiles assembled through the builder classes (global options, http-get/http-post with client/server blocks, "
@@ -185,4 +237,4 @@ for h in range(100 if TIER == "quick" else 4000):
     except Exception as ex:   # noqa
         ok, why = False, repr(ex)[:300]
     c_track.case(h, ok, witness={"history": h, "why": why})
-emit([c_dict, c_build, c_track])
+emit([c_dict, c_paths, c_build, c_track])
